@@ -76,12 +76,8 @@ pub fn read_graphml_string(string: &str, specs: GraphSpecs) -> Result<Graph<Stri
                     }
                 }
                 b"key" => {
-                    let attrs = get_attributes_as_hashmap(e);
-                    if attrs.contains_key("attr.name")
-                        && attrs.get("attr.name").unwrap() == "weight"
-                        && attrs.get("for").unwrap() == "edge"
-                    {
-                        edge_weight_attr_name = attrs.get("id").unwrap().to_string();
+                    if let Some(id) = get_edge_weight_key_id(e)? {
+                        edge_weight_attr_name = id;
                     }
                 }
                 _ => (),
@@ -89,7 +85,7 @@ pub fn read_graphml_string(string: &str, specs: GraphSpecs) -> Result<Graph<Stri
             Ok(Event::Start(ref e)) => {
                 match e.name().as_ref() {
                     b"graph" => {
-                        let attrs = get_attributes_as_hashmap(e);
+                        let attrs = get_attributes_as_hashmap(e)?;
                         match attrs.get("edgedefault") {
                             None => {
                                 return Err(get_read_error("the <graph> element does not have an \"edgedefault\" attribute"));
@@ -122,27 +118,27 @@ pub fn read_graphml_string(string: &str, specs: GraphSpecs) -> Result<Graph<Stri
                         }
                     }
                     b"key" => {
-                        let attrs = get_attributes_as_hashmap(e);
-                        if attrs.contains_key("attr.name")
-                            && attrs.get("attr.name").unwrap() == "weight"
-                            && attrs.get("for").unwrap() == "edge"
-                        {
-                            edge_weight_attr_name = attrs.get("id").unwrap().to_string();
+                        if let Some(id) = get_edge_weight_key_id(e)? {
+                            edge_weight_attr_name = id;
                         }
                     }
                     b"data" => {
-                        let attrs = get_attributes_as_hashmap(e);
+                        let attrs = get_attributes_as_hashmap(e)?;
                         if attrs.contains_key("key") {
                             let key = attrs.get("key").unwrap();
                             if key == &edge_weight_attr_name {
                                 let mut buf = Vec::new();
                                 match reader.read_event_into(&mut buf) {
                                     Ok(Event::Text(e)) => {
-                                        let weight = str::from_utf8(&e).unwrap();
+                                        let weight = str::from_utf8(&e).map_err(|_| {
+                                            get_read_error("an edge weight is not valid UTF-8")
+                                        })?;
                                         match last_element_name.as_str() {
                                             "edge" => {
                                                 let edge = Arc::make_mut(edges.last_mut().unwrap());
-                                                edge.weight = weight.parse::<f64>().unwrap();
+                                                edge.weight = weight.parse::<f64>().map_err(|_| {
+                                                    get_read_error("an edge weight is not a number")
+                                                })?;
                                             }
                                             _ => (),
                                         }
@@ -270,7 +266,7 @@ where
 }
 
 fn add_edge(edges: &mut Vec<Arc<Edge<String, ()>>>, e: &BytesStart) -> Result<(), Error> {
-    let attrs = get_attributes_as_hashmap(e);
+    let attrs = get_attributes_as_hashmap(e)?;
     if !attrs.contains_key("source") {
         return Err(get_read_error(
             "an <edge> element does not have a \"source\" attribute",
@@ -289,7 +285,7 @@ fn add_edge(edges: &mut Vec<Arc<Edge<String, ()>>>, e: &BytesStart) -> Result<()
 }
 
 fn add_node(nodes: &mut Vec<Arc<Node<String, ()>>>, e: &BytesStart) -> Result<(), Error> {
-    let attrs = get_attributes_as_hashmap(e);
+    let attrs = get_attributes_as_hashmap(e)?;
     match attrs.get("id") {
         None => Err(get_read_error(
             "a <node> element does not have an \"id\" attribute",
@@ -301,17 +297,38 @@ fn add_node(nodes: &mut Vec<Arc<Node<String, ()>>>, e: &BytesStart) -> Result<()
     }
 }
 
-fn get_attributes_as_hashmap(event: &BytesStart) -> HashMap<String, String> {
+fn get_attributes_as_hashmap(event: &BytesStart) -> Result<HashMap<String, String>, Error> {
     event
         .attributes()
         .map(|a| {
-            let attr = a.unwrap();
+            let attr = a.map_err(|e| get_read_error(format!("{}", e).as_str()))?;
             let key_vec = attr.key.local_name().as_ref().to_vec();
-            let key = String::from_utf8(key_vec).unwrap();
-            let value = attr.unescape_value().unwrap().into_owned();
-            (key, value)
+            let key = String::from_utf8(key_vec)
+                .map_err(|e| get_read_error(format!("{}", e).as_str()))?;
+            let value = attr
+                .unescape_value()
+                .map_err(|e| get_read_error(format!("{}", e).as_str()))?
+                .into_owned();
+            Ok((key, value))
         })
         .collect()
+}
+
+/// Returns the "id" of a `<key>` element that declares the edge weight attribute
+/// (`attr.name="weight"` and `for="edge"`), `None` for any other `<key>` element.
+fn get_edge_weight_key_id(e: &BytesStart) -> Result<Option<String>, Error> {
+    let attrs = get_attributes_as_hashmap(e)?;
+    if attrs.get("attr.name").map(String::as_str) == Some("weight")
+        && attrs.get("for").map(String::as_str) == Some("edge")
+    {
+        return match attrs.get("id") {
+            Some(id) => Ok(Some(id.to_string())),
+            None => Err(get_read_error(
+                "the <key> element of the edge weight does not have an \"id\" attribute",
+            )),
+        };
+    }
+    Ok(None)
 }
 
 fn get_read_error(message: &str) -> Error {
